@@ -52,6 +52,8 @@ class Contract:
         self.decreases = kw.pop("decreases", None)
         self.runtime_name = kw.pop("runtime_name", None)
         self.gen = kw.pop("gen", None)
+        self.post_types = kw.pop("post_types", {})   # "self.field" / "self['item']" -> type of the value after the call
+        self.abstract = kw.pop("abstract", [])      # operations treated as uninterpreted functions: "div", "trunc", "mul"
         self.rt_ensures = _named(kw.pop("rt_ensures", []), "rt")   # clauses evaluated only by the bounded run-time layer
         self.concretize = kw.pop("concretize", None)
         if kw:
@@ -134,11 +136,15 @@ def pairs_kept(keys, data, oldkeys, olddata, lo, hi):
     return a == b
 
 
+def is_permutation(a, hint=None):
+    return sorted(int(x) for x in a) == list(range(len(a)))
+
+
 def org(a):          # ghost, prover only
     raise NotImplementedError("org() is a ghost function (prover only)")
 
 
-RUNTIME_VOCAB = dict(implies=implies, permutation=permutation, is_sorted=is_sorted, pairs_kept=pairs_kept)
+RUNTIME_VOCAB = dict(is_permutation=is_permutation, implies=implies, permutation=permutation, is_sorted=is_sorted, pairs_kept=pairs_kept)
 
 
 def load_specs(specdir=None):
